@@ -31,7 +31,7 @@ def gen_msg(rng, sname, phase):
         m["cd_first"] = True
     if k < 0.3:      # set
         leaf = rng.choice(S["leaves"])
-        val = rng.choice(S["vals"].get(leaf, ["1"]) + ["", "x", "1 2"]) if rng.random() < 0.8 else rng.choice(["null", "{}", "[", "\"é\""])
+        val = rng.choice(S["vals"].get(leaf, ["1"]) + ["", "x", "1 2"]) if rng.random() < 0.8 else rng.choice(["null", "{}", "[", "\"é\"", " ", "\n", "\r\n", "\t "])
         m.update(topic=PREFIX + "/settings" + leaf, payload=list(val.encode()))
         if not val:
             m["payload"] = list(b"0")
@@ -44,6 +44,9 @@ def gen_msg(rng, sname, phase):
     elif k < 0.85:   # invalid / odd paths
         p = rng.choice(["/nope", "/a/b", "/b/2", "/b", "/i/x/y", "x", "/", "//", "/é", "/b/01", "/b/+1", "/e/p"])
         m.update(topic=PREFIX + "/settings" + p, payload=rng.choice([[], list(b"1")]))
+        if rng.random() < 0.3:   # the "/settings" segment repeated: the path is "/settings<...>", which no tree here has
+            leaf = rng.choice(S["leaves"] + S["internal"])
+            m.update(topic=PREFIX + "/settings/settings" + leaf, payload=rng.choice([[], list(rng.choice(S["vals"].get(leaf, ["1"])).encode())]))
     else:            # foreign topics
         t = rng.choice([PREFIX + "/other", PREFIX + "/alive", "x/y", PREFIX + "/setting", PREFIX + "x/settings/a", PREFIX + "/response"])
         m.update(topic=t, payload=rng.choice([[], list(b"1")]))
@@ -175,7 +178,7 @@ def schedules_for(rng, tier):
     # holds more than minimq's 10 tracked publications, and a broker that withholds its acknowledgements
     for j in range(2 if tier == "quick" else 8):
         r = random.Random(rng.getrandbits(64))
-        k = r.randint(0, 9)
+        k = r.randint(0, 4) if j == 0 else r.randint(0, 9)    # withheld from before the initial dump: always overflows
         steps = [dict(dt=400) for _ in range(40)]
         steps[k]["ack"] = False
         scheds.append(dict(settings="S3", init=dict(e=True), prefix=PREFIX, buffer=16384, session=8192, tx=1024, kind="inflight",
